@@ -4,7 +4,9 @@ pub mod c01;
 pub mod c03;
 pub mod c04;
 pub mod c05;
+pub mod c06;
 pub mod c07;
+pub mod c08;
 pub mod c09;
 pub mod c09_gen;
 pub mod c10;
@@ -28,10 +30,12 @@ pub mod c14_tr;
 pub mod c15;
 pub mod c15_adapt;
 pub mod c15_layout;
+pub mod c16;
 pub mod c17;
 pub mod c17_chk;
 pub mod c17_ref;
 pub mod t00;
+pub mod valgen;
 
 pub fn all() -> Vec<Box<dyn Property>> {
     vec![
@@ -41,7 +45,9 @@ pub fn all() -> Vec<Box<dyn Property>> {
         Box::new(c03::C03),
         Box::new(c04::C04),
         Box::new(c05::C05),
+        Box::new(c06::C06),
         Box::new(c07::C07),
+        Box::new(c08::C08),
         Box::new(c09::C09),
         Box::new(c10::C10),
         Box::new(c11::C11),
@@ -49,6 +55,7 @@ pub fn all() -> Vec<Box<dyn Property>> {
         Box::new(c13::C13),
         Box::new(c14::C14),
         Box::new(c15::C15),
+        Box::new(c16::C16),
         Box::new(c17::C17),
     ]
 }
